@@ -1043,11 +1043,32 @@ func witnesses() []Case {
 	}
 }
 
+// caseTimeout bounds one case: a request that never completes is an observation (T), not a hang; a panic
+// outside the recovered ServeHTTP call (framework code run by the harness) is an observation (P).
+const caseTimeout = 20 * time.Second
+
 func run(id string, cs Case) string {
-	if cs.Kind == "A" {
-		return runA(id, cs)
+	done := make(chan string, 1)
+	go func() {
+		defer func() {
+			if r := recover(); r != nil {
+				done <- hx.NewLine(id).Tok("X").Sep().Tok("P").String() + hx.Comment(cs)
+			}
+		}()
+		if cs.Kind == "A" {
+			done <- runA(id, cs)
+		} else {
+			done <- runR(id, cs)
+		}
+	}()
+	select {
+	case line := <-done:
+		return line
+	case <-time.After(caseTimeout):
+		curMu = sync.Mutex{} // the stuck goroutines are abandoned
+		delete(routers, cs.C.key())
+		return hx.NewLine(id).Tok("X").Sep().Tok("T").String() + hx.Comment(cs)
 	}
-	return runR(id, cs)
 }
 
 func main() {
